@@ -55,6 +55,9 @@ Definition ok_obj (o : xobj) : Prop :=
                    /\ (is_bogus fl (cnum o) = true \/ cnum o = to_num (first_data vals))
   | PStr s => is_zero (cnum o) = true \/ cnum o = to_num s
   | PNum v => cstr o = [] \/ cstr o = num_to_str v
+  | PFrag cs => match csing o with Some v => v = frag_string cs | None => True end
+                /\ (cstr o = [] \/ cstr o = frag_string cs)
+                /\ (is_rtf_bogus fl (cnum o) = true \/ cnum o = to_num (frag_string cs))
   end.
 
 (* ---- clearCachedValues ---- *)
@@ -64,7 +67,7 @@ Definition absR (o : xobj) (a : bool * bool) : Prop :=
 Lemma run_simple_abs : forall s o a, absR o a ->
   absR (run_simple fl o s) (abs_simple a s) /\ pl (run_simple fl o s) = pl o.
 Proof.
-  intros [] [p cs cn] [a1 a2] [H1 H2]; simpl in *; repeat split; auto.
+  intros [] [p cs cn sg] [a1 a2] [H1 H2]; simpl in *; repeat split; auto.
 Qed.
 Lemma fold_simple_abs : forall b o a, absR o a ->
   absR (fold_left (run_simple fl) b o) (fold_left abs_simple b a) /\ pl (fold_left (run_simple fl) b o) = pl o.
@@ -112,7 +115,7 @@ Lemma ask_ok : forall q o, ok_obj o ->
   ok_obj (fst (ask to_num num_to_str fl q o)) /\ pl (fst (ask to_num num_to_str fl q o)) = pl o
   /\ snd (ask to_num num_to_str fl q o) = conv to_num num_to_str (pl o) q.
 Proof.
-  intros q [p cs cn]. unfold ok_obj, ask. simpl. destruct p as [vals|s|v]; intros H.
+  intros q [p cs cn sg]. unfold ok_obj, ask. simpl. destruct p as [vals|s|v|fs]; intros H.
   - destruct H as [Hs Hn]. destruct q; simpl;
       unfold ns_num, ns_str_ref, ns_str_buf, ns_len; simpl.
     + (* num *) destruct (is_bogus fl cn) eqn:EB; simpl.
@@ -145,6 +148,37 @@ Proof.
       (destruct (str_empty cs) eqn:ES; simpl;
        [apply str_empty_nil in ES; subst cs; simpl; auto
        |apply str_empty_false in ES; destruct H as [H|H]; [contradiction|]; subst cs; auto]).
+  - destruct H as [Hg [Hs Hn]].
+    assert (SR : snd (rtf_str_ref (mk_obj (PFrag fs) cs cn sg) fs) = frag_string fs
+                 /\ pl (fst (rtf_str_ref (mk_obj (PFrag fs) cs cn sg) fs)) = PFrag fs
+                 /\ csing (fst (rtf_str_ref (mk_obj (PFrag fs) cs cn sg) fs)) = sg
+                 /\ cnum (fst (rtf_str_ref (mk_obj (PFrag fs) cs cn sg) fs)) = cn
+                 /\ (cstr (fst (rtf_str_ref (mk_obj (PFrag fs) cs cn sg) fs)) = []
+                     \/ cstr (fst (rtf_str_ref (mk_obj (PFrag fs) cs cn sg) fs)) = frag_string fs)).
+    { unfold rtf_str_ref. simpl. destruct sg as [v|].
+      - simpl. repeat split; auto.
+      - destruct (str_empty cs) eqn:ES.
+        + apply str_empty_nil in ES. subst cs. simpl. repeat split; auto.
+        + apply str_empty_false in ES. destruct Hs as [Hs|Hs]; [contradiction|]. subst cs.
+          simpl. repeat split; auto. }
+    destruct q; simpl.
+    + (* num *) unfold rtf_num. simpl. destruct (is_rtf_bogus fl cn) eqn:EB.
+      * destruct (rtf_str_ref (mk_obj (PFrag fs) cs cn sg) fs) as [o1 r] eqn:E1.
+        simpl in SR. destruct SR as [R1 [R2 [R3 [R4 R5]]]]. subst r. simpl.
+        unfold set_cnum. simpl. rewrite R2, R3. repeat split; auto.
+      * destruct Hn as [Hn|Hn]; [congruence|]. subst cn. simpl. rewrite EB. repeat split; auto.
+    + (* str ref *) destruct (rtf_str_ref (mk_obj (PFrag fs) cs cn sg) fs) as [o1 r] eqn:E1.
+      simpl in SR. destruct SR as [R1 [R2 [R3 [R4 R5]]]]. subst r. simpl. rewrite R2, R3, R4. repeat split; auto.
+    + (* buffer *) unfold rtf_str_buf. simpl. repeat split; auto. destruct sg as [v|]; [congruence|].
+      destruct (str_empty cs) eqn:ES; simpl; auto.
+      apply str_empty_false in ES. destruct Hs as [Hs|Hs]; [contradiction|]. congruence.
+    + (* events *) unfold rtf_str_buf. simpl. repeat split; auto. destruct sg as [v|]; [congruence|].
+      destruct (str_empty cs) eqn:ES; simpl; auto.
+      apply str_empty_false in ES. destruct Hs as [Hs|Hs]; [contradiction|]. congruence.
+    + (* length *) unfold rtf_len. simpl. repeat split; auto. destruct sg as [v|]; [congruence|].
+      destruct (str_empty cs) eqn:ES; simpl; auto.
+      apply str_empty_false in ES. destruct Hs as [Hs|Hs]; [contradiction|]. congruence.
+    + repeat split; auto.
 Qed.
 
 (* ---- recycling ---- *)
@@ -162,11 +196,30 @@ Lemma fl_xs : f_xs_set_clears fl = true.
 Proof. pose proof FOK as F. unfold flags_ok in F. rewrite !andb_true_iff in F. tauto. Qed.
 Lemma fl_xn : f_xn_set_clears fl = true.
 Proof. pose proof FOK as F. unfold flags_ok in F. rewrite !andb_true_iff in F. tauto. Qed.
+Lemma fl_rtf_text : f_rtf_text_test fl = true.
+Proof. pose proof FOK as F. unfold flags_ok in F. rewrite !andb_true_iff in F. tauto. Qed.
+Lemma fl_rtf_sibling : f_rtf_sibling_test fl = true.
+Proof. pose proof FOK as F. unfold flags_ok in F. rewrite !andb_true_iff in F. tauto. Qed.
+Lemma fl_rtf_sentinel : is_rtf_bogus fl (f_rtf_bogus fl) = true.
+Proof. pose proof FOK as F. unfold flags_ok in F. rewrite !andb_true_iff in F. unfold is_rtf_bogus. tauto. Qed.
+
+(* getSingleTextChildValue: when it delivers a value, that value is the string-value of the whole fragment *)
+Lemma single_text_child_is_the_string : forall cs v,
+  single_text_child fl cs = Some v -> v = frag_string cs.
+Proof.
+  intros [|c rest] v; unfold single_text_child; [discriminate|].
+  rewrite fl_rtf_text, fl_rtf_sibling. simpl.
+  destruct c; simpl; try discriminate. destruct rest; simpl; try discriminate.
+  intros E. inversion E; subst. unfold frag_string. simpl. now rewrite app_nil_r.
+Qed.
 
 Lemma fresh_ok : forall p, ok_obj (fresh fl p) /\ pl (fresh fl p) = p.
 Proof.
-  intros [vals|s|v]; unfold ok_obj; simpl; split; auto.
-  split; auto. left. apply fl_sentinel.
+  intros [vals|s|v|cs]; unfold ok_obj; simpl; split; auto.
+  - split; auto. left. apply fl_sentinel.
+  - split; [|split; auto].
+    + destruct (single_text_child fl cs) as [v|] eqn:E; auto. now apply single_text_child_is_the_string.
+    + left. apply fl_rtf_sentinel.
 Qed.
 Lemma ns_release_clean : forall o, clean (ns_release fl o).
 Proof.
@@ -174,7 +227,7 @@ Proof.
 Qed.
 Lemma clean_ok : forall o vals, clean o -> ok_obj (set_pl (PNodes vals) o).
 Proof.
-  intros [p cs cn] vals [H1 H2]. unfold ok_obj. simpl in *. subst. split; auto. left. apply fl_sentinel.
+  intros [p cs cn sg] vals [H1 H2]. unfold ok_obj. simpl in *. subst. split; auto. left. apply fl_sentinel.
 Qed.
 
 (* what the node-set stack may hold: anything if set() releases, otherwise only clean objects *)
@@ -189,11 +242,11 @@ Proof.
 Qed.
 Lemma xs_set_ok : forall o s, ok_obj (xs_set fl o s) /\ pl (xs_set fl o s) = PStr s.
 Proof.
-  intros [p cs cn] s. unfold xs_set. rewrite fl_xs. unfold ok_obj. simpl. auto.
+  intros [p cs cn sg] s. unfold xs_set. rewrite fl_xs. unfold ok_obj. simpl. auto.
 Qed.
 Lemma xn_set_ok : forall o v, ok_obj (xn_set fl o v) /\ pl (xn_set fl o v) = PNum v.
 Proof.
-  intros [p cs cn] s. unfold xn_set. rewrite fl_xn. unfold ok_obj. simpl. auto.
+  intros [p cs cn sg] s. unfold xn_set. rewrite fl_xn. unfold ok_obj. simpl. auto.
 Qed.
 
 Definition winv (w : world) : Prop := Forall ok_obj (live w) /\ Forall ns_stack_ok (st_ns w).
@@ -207,7 +260,7 @@ Proof.
   { intros o rest a b c H1 H2 H3. split; [split|]; cbn [live st_ns]; auto.
     - apply Forall_app. split; auto.
     - rewrite map_app. cbn [map]. now rewrite H2. }
-  destruct p as [vals|s|v].
+  destruct p as [vals|s|v|cs].
   - destruct (st_ns w) as [|o rest] eqn:E.
     + destruct (fresh_ok (PNodes vals)) as [F1 F2]. apply K; auto.
     + inversion HS; subst. destruct (ns_set_ok o vals H1) as [F1 F2]. apply K; auto.
@@ -217,6 +270,7 @@ Proof.
   - destruct (st_n w) as [|o rest] eqn:E.
     + destruct (fresh_ok (PNum v)) as [F1 F2]. apply K; auto.
     + destruct (xn_set_ok o v) as [F1 F2]. apply K; auto.
+  - destruct (fresh_ok (PFrag cs)) as [F1 F2]. apply K; auto.
 Qed.
 
 Lemma give_back_ok : forall o w, winv w -> winv (give_back fl o w) /\ live (give_back fl o w) = live w.
@@ -230,6 +284,7 @@ Proof.
     + left. pose proof fl_set_or_return as H. rewrite E in H. now rewrite orb_false_r in H.
   - destruct (Nat.ltb _ _); simpl; split; try split; auto.
   - destruct (Nat.ltb _ _); simpl; split; try split; auto.
+  - split; [split|]; auto.
 Qed.
 
 Lemma step_ok : forall x w, winv w ->
@@ -269,6 +324,17 @@ Proof.
   f_equal. now apply IH.
 Qed.
 
+(* a fragment whose only child is a text node: the constructor takes the shortcut, and every string answer is the value
+   of that text node without m_cachedStringValue ever being filled *)
+Lemma shortcut_is_taken : forall v q,
+  csing (fresh fl (PFrag [FText v])) = Some v
+  /\ cstr (fst (ask to_num num_to_str fl q (fresh fl (PFrag [FText v])))) = [].
+Proof.
+  intros v q. unfold fresh, single_text_child. rewrite fl_rtf_text, fl_rtf_sibling. simpl. split; auto.
+  destruct q; unfold ask; simpl; auto.
+  unfold rtf_num. simpl. destruct (is_rtf_bogus fl (f_rtf_bogus fl)); simpl; auto.
+Qed.
+
 Lemma winv_w0 : winv w0.
 Proof. split; constructor. Qed.
 
@@ -305,7 +371,7 @@ Lemma num_fills_both_members : forall o vals,
   cstr (fst (ask to_num num_to_str fl QNum o)) = first_data vals
   /\ cnum (fst (ask to_num num_to_str fl QNum o)) = to_num (first_data vals).
 Proof.
-  intros [p cs cn] vals H1 H2 H3. simpl in *. subst. unfold ask. simpl. unfold ns_num, ns_str_ref. simpl.
+  intros [p cs cn sg] vals H1 H2 H3. simpl in *. subst. unfold ask. simpl. unfold ns_num, ns_str_ref. simpl.
   rewrite H3. simpl. destruct vals; simpl; auto.
 Qed.
 (* ... so the number is found again by the next num() exactly when it is not (IEEE-)equal to the sentinel *)
@@ -320,7 +386,7 @@ Lemma empty_string_value_is_not_kept : forall o vals,
   pl o = PNodes vals -> cstr o = [] -> first_data vals = [] ->
   fst (ask to_num num_to_str fl QStrRef o) = o.
 Proof.
-  intros [p cs cn] vals H1 H2 H3. simpl in *. subst. unfold ask. simpl. unfold ns_str_ref. simpl.
+  intros [p cs cn sg] vals H1 H2 H3. simpl in *. subst. unfold ask. simpl. unfold ns_str_ref. simpl.
   destruct (has_nodes vals); simpl; auto. rewrite H3. reflexivity.
 Qed.
 End Sentinels.
@@ -336,6 +402,19 @@ Lemma seeded_refuted :
   run string_to_number number_to_string seeded_flags w0 c11f_history = [ONum S754_nan; ONum S754_nan]
   /\ ref_run string_to_number number_to_string [] c11f_history = [ONum S754_nan; ONum (string_to_number s_20)]
   /\ string_to_number s_20 <> S754_nan.
+Proof. vm_compute. repeat split; discriminate. Qed.
+
+(* ---- XResultTreeFrag: getSingleTextChildValue without the test for a following sibling ---- *)
+Definition s_2 : str := [50]%N.
+Definition s_0 : str := [48]%N.
+Definition rtf_history : list op :=
+  [Create (PFrag [FText s_2; FElem s_0]); Ask 0 QStrRef; Ask 0 QNum].
+Lemma no_sibling_test_guard_rejects : flags_ok no_sibling_test_flags = false.
+Proof. vm_compute. reflexivity. Qed.
+Lemma no_sibling_test_refuted :
+  run string_to_number number_to_string no_sibling_test_flags w0 rtf_history = [OStr s_2; ONum (string_to_number s_2)]
+  /\ ref_run string_to_number number_to_string [] rtf_history = [OStr s_20; ONum (string_to_number s_20)]
+  /\ string_to_number s_2 <> string_to_number s_20.
 Proof. vm_compute. repeat split; discriminate. Qed.
 
 (* ---- this tree ---- *)
